@@ -53,24 +53,20 @@ Definition split_finder {P : Type} (inside : nat -> P -> bool) (nsimp nt : nat) 
 Definition hstack_cols {A : Type} (blocks : list (list A)) : list A := concat blocks.
 
 (* ------------------------------------------------------------------ 1-D finder (MeshLine1.element_finder)
-   ps: the vertex coordinates sorted ascending (p[0, ix]); ixs: the vertex numbers in that order (ix);
-   maxt c: the vertex number of the right end of cell c *)
+   lefts / rights: the end points of the cells, cells sorted by their left end (ends = sort(p[0, t], axis=0);
+   ix = argsort(ends[0])); ixs: the cell numbers in that order.
+   k = searchsorted(left, x, side='right') - 1 = (number of left ends <= x) - 1; error if k < 0 or x > right[k] *)
 Definition digitize (ps : list Q) (x : Q) : nat := length (filter (fun p => Qle_bool p x) ps).
 
-Definition line_finder1 (ps : list Q) (ixs : list nat) (maxt : list nat) (x : Q) : list nat :=
-  let n := length ps in
-  let last := nth (n - 1) ps 0%Q in
-  let xin := if Qeq_bool x last then ((nth (n - 2) ps 0 + last) / 2)%Q else x in
-  let i := digitize ps xin in
-  match nth_error ixs i with
-  | None => []                                         (* ix[n]: IndexError in the code, also an error *)
-  | Some v => map fst (filter (fun cm => Nat.eqb (snd cm) v) (combine (seq 0 (length maxt)) maxt))
+Definition line_finder1 (lefts rights : list Q) (ixs : list nat) (x : Q) : option nat :=
+  match digitize lefts x with
+  | O => None
+  | S k => if Qle_bool x (nth k rights 0%Q) then nth_error ixs k else None
   end.
 
-(* np.nonzero(... == maxt)[1]: the matches of all points, concatenated; fewer matches than points => error *)
-Definition line_finder (ps : list Q) (ixs : list nat) (maxt : list nat) (xs : list Q) : option (list nat) :=
-  let r := concat (map (line_finder1 ps ixs maxt) xs) in
-  if length r <? length xs then None else Some r.
+(* the whole batch: an error for one point is an error for the call *)
+Definition line_finder (lefts rights : list Q) (ixs : list nat) (xs : list Q) : option (list nat) :=
+  all_some (map (line_finder1 lefts rights ixs) xs).
 
 (* ------------------------------------------------------------------ CellBasis.probes *)
 Definition arange (n : nat) : list nat := seq 0 n.
